@@ -565,6 +565,12 @@ def apply_fn_block(blk, unit_state):
         kth = int(mm.group(2)) if mm.group(2) else 1
         anchor = mm.group(3).strip()
         contains = False
+        optional = False
+        if anchor.startswith('?'):
+            # `before ?<anchor>`: an obligation ABOUT that statement; if the statement no longer exists there is
+            # nothing to attach it to (the function's other clauses judge the new body)
+            optional = True
+            anchor = anchor[1:].strip()
         if anchor.startswith('~'):
             contains = True
             anchor = anchor[1:].strip()
@@ -577,13 +583,20 @@ def apply_fn_block(blk, unit_state):
                 seen += 1
                 if seen == kth:
                     return i
+        if optional:
+            rules.append({'rule': 'anchor-absent', 'from': anchor})
+            return None
         raise ExtractError('%s: lost anchor `%s` (k=%d)' % (where(), anchor, kth))
 
     for sarg, slines in sec_by.get('before', []):
         i = find_anchor(sarg)
+        if i is None:
+            continue
         inserts.append((i, None, ins_lines(slines), 'before-line'))
     for sarg, slines in sec_by.get('after', []):
         i = find_anchor(sarg)
+        if i is None:
+            continue
         e = stmt_end_line(lines, i)
         inserts.append((e, None, ins_lines(slines), 'after-line'))
     for sarg, slines in sec_by.get('body-start', []):
